@@ -3,11 +3,11 @@ package main
 // Smaller structural rules of the coroutine layer.
 
 import (
-	"strconv"
 	"fmt"
 	"go/ast"
 	"go/token"
 	"go/types"
+	"strconv"
 	"strings"
 
 	"golang.org/x/tools/go/cfg"
@@ -34,6 +34,11 @@ func ruleCoroutineConfinement(c *Ctx) {
 				for _, sp := range gd.Specs {
 					vs := sp.(*ast.ValueSpec)
 					for _, n := range vs.Names {
+						// a read-only table of constants (never written, only indexed) is not state
+						if v, ok := info.Defs[n].(*types.Var); ok && readOnlyTable(m.Pk, v) != nil {
+							c.ok("no-package-state/"+n.Name, n.Pos(), "package-level "+n.Name+" is a table of constants that is only ever read by indexing")
+							continue
+						}
 						clean = false
 						c.bad("no-package-state/"+n.Name, n.Pos(), "package-level variable "+n.Name+" in internal/app/coroutines: coroutines must keep no state outside the store (it would be lost at a restart and shared between requests)")
 					}
